@@ -130,6 +130,9 @@ func Load(o LoadOpts) (*Prog, error) {
 		return nil, fmt.Errorf("type/load errors in repo packages (%s variant):\n  %s", o.Variant, strings.Join(errs, "\n  "))
 	}
 	p.canonicalise()
+	if o.Variant == "stub" || PredicateExpander == nil {
+		p.installPredicateExpander()
+	}
 	return p, nil
 }
 
@@ -352,4 +355,109 @@ func (p *Prog) FuncOfObj(fn *types.Func) *Func {
 		return nil
 	}
 	return f
+}
+
+// installPredicateExpander wires cfgx.PredicateExpander to this program.
+func (p *Prog) installPredicateExpander() {
+	PredicateExpander = func(call *ast.CallExpr) ast.Expr {
+		var info *types.Info
+		var fn *types.Func
+		for _, pk := range p.RepoPkgs() {
+			if f := Callee(pk.TypesInfo, call); f != nil {
+				info, fn = pk.TypesInfo, f
+				break
+			}
+		}
+		if fn == nil {
+			return nil
+		}
+		h := p.FuncOfObj(fn)
+		if h == nil || h.Decl == nil || h.Body == nil || len(h.Body.List) != 1 || h.Decl.Recv != nil {
+			return nil
+		}
+		rs, ok := h.Body.List[0].(*ast.ReturnStmt)
+		if !ok || len(rs.Results) != 1 {
+			return nil
+		}
+		if b, ok := info.TypeOf(rs.Results[0]).Underlying().(*types.Basic); !ok || b.Info()&types.IsBoolean == 0 {
+			return nil
+		}
+		subst := map[types.Object]ast.Expr{}
+		i := 0
+		hinfo := h.Pkg.TypesInfo
+		for _, fld := range h.Decl.Type.Params.List {
+			for _, nm := range fld.Names {
+				if i < len(call.Args) {
+					subst[hinfo.ObjectOf(nm)] = call.Args[i]
+				}
+				i++
+			}
+		}
+		if i != len(call.Args) {
+			return nil
+		}
+		return cloneSubst(hinfo, rs.Results[0], subst)
+	}
+}
+
+// cloneSubst deep-copies an expression, replacing identifiers of substituted objects by the given
+// expressions (shared, not copied) and registering the copies' type information.
+func cloneSubst(info *types.Info, e ast.Expr, subst map[types.Object]ast.Expr) ast.Expr {
+	reg := func(orig, cp ast.Expr) ast.Expr {
+		if tv, ok := info.Types[orig]; ok {
+			info.Types[cp] = tv
+		}
+		return cp
+	}
+	var cl func(e ast.Expr) ast.Expr
+	cl = func(e ast.Expr) ast.Expr {
+		switch x := e.(type) {
+		case nil:
+			return nil
+		case *ast.Ident:
+			if o := info.ObjectOf(x); o != nil {
+				if r, ok := subst[o]; ok {
+					return r
+				}
+			}
+			cp := *x
+			if o, ok := info.Uses[x]; ok {
+				info.Uses[&cp] = o
+			}
+			return reg(x, &cp)
+		case *ast.BasicLit:
+			cp := *x
+			return reg(x, &cp)
+		case *ast.ParenExpr:
+			return reg(x, &ast.ParenExpr{Lparen: x.Lparen, X: cl(x.X), Rparen: x.Rparen})
+		case *ast.UnaryExpr:
+			return reg(x, &ast.UnaryExpr{OpPos: x.OpPos, Op: x.Op, X: cl(x.X)})
+		case *ast.StarExpr:
+			return reg(x, &ast.StarExpr{Star: x.Star, X: cl(x.X)})
+		case *ast.BinaryExpr:
+			return reg(x, &ast.BinaryExpr{X: cl(x.X), OpPos: x.OpPos, Op: x.Op, Y: cl(x.Y)})
+		case *ast.SelectorExpr:
+			sel := *x.Sel
+			if o, ok := info.Uses[x.Sel]; ok {
+				info.Uses[&sel] = o
+			}
+			cp := &ast.SelectorExpr{X: cl(x.X), Sel: &sel}
+			if s, ok := info.Selections[x]; ok {
+				info.Selections[cp] = s
+			}
+			return reg(x, cp)
+		case *ast.IndexExpr:
+			return reg(x, &ast.IndexExpr{X: cl(x.X), Lbrack: x.Lbrack, Index: cl(x.Index), Rbrack: x.Rbrack})
+		case *ast.SliceExpr:
+			return reg(x, &ast.SliceExpr{X: cl(x.X), Lbrack: x.Lbrack, Low: cl(x.Low), High: cl(x.High), Max: cl(x.Max), Slice3: x.Slice3, Rbrack: x.Rbrack})
+		case *ast.CallExpr:
+			cp := &ast.CallExpr{Fun: cl(x.Fun), Lparen: x.Lparen, Ellipsis: x.Ellipsis, Rparen: x.Rparen}
+			for _, a := range x.Args {
+				cp.Args = append(cp.Args, cl(a))
+			}
+			return reg(x, cp)
+		}
+		return e
+	}
+	return cl(e)
 }
